@@ -292,7 +292,7 @@ macro_rules! gen_for {
                 // ---- update_fees_state: clock forward, distribute impact, borrowing, funding
                 if forced_dt.is_some() || (script.is_none() && (kind == 0 || (kind != 100 && kind != 0 && rng.chance(2, 3)))) {
                     let snap = m.clone();
-                    let dt = if let Some(d) = forced_dt { d } else if kind == 0 { *rng.pick(&[1u64, 60, 3600, 86_400, 604_800]) } else { *rng.pick(&[0u64, 0, 1, 60, 3600]) };
+                    let dt = if let Some(d) = forced_dt { d } else if kind == 0 && mode == "c08" { *rng.pick(&[1u64, 60, 3600, 86_400, 604_800, 2_592_000, 10_368_000]) } else if kind == 0 { *rng.pick(&[1u64, 60, 3600, 86_400, 604_800]) } else { *rng.pick(&[0u64, 0, 1, 60, 3600]) };
                     m.move_clock_forward(dt);
                     let r = (|| -> gmsol_model::Result<()> {
                         m.distribute_position_impact()?.execute()?;
@@ -621,6 +621,29 @@ fn script_c08_pay_first() -> Script<u64> {
     sc
 }
 
+/// C08: fees larger than the whole collateral, the remainder paid out of the profit, which is in the other
+/// (pnl) token: long with short-token collateral (or short with long-token collateral), `days` of borrowing,
+/// price moved in favour, close without swap.  `pay_for_fees_excluding_funding` must then route the fees through
+/// its "paid in secondary output" branch (collateral part to the pool, pnl-token part to the holding claimable).
+fn script_c08_spill(long_side: bool, p0: u64, p1: u64, coll_usd: u64, size: u64, days: u64, close: u64) -> Script<u64> {
+    let (positions, pr0, pr1, coll) = if long_side {
+        (vec![(true, false)], (p0, p0, 1), (p1, p1, 1), coll_usd)
+    } else {
+        // short: the long token keeps its price, only the index moves (down)
+        (vec![(false, true)], (p0, p0, 1), (p1, p0, 1), coll_usd / p0)
+    };
+    Script {
+        cfg: test_cfg(), primary: (1_000_000_000, 200_000_000_000), impact_pool: 0,
+        positions,
+        ops: vec![
+            SOp::Fees(0, pr0),
+            SOp::Inc(0, pr0, coll, size),
+            SOp::Fees(days * 86_400, pr1),
+            SOp::Dec(0, pr1, close, 0),
+        ],
+    }
+}
+
 fn main() {
     let a = args();
     let mut mode = "mix".to_string();
@@ -638,6 +661,22 @@ fn main() {
         gen64(&mut rng, &mode, Some(&script_c08()));
         gen64(&mut rng, &mode, Some(&script_c08_claim_first()));
         gen64(&mut rng, &mode, Some(&script_c08_pay_first()));
+        // the seeded-change scenario C08a and variants of the same shape
+        gen64(&mut rng, &mode, Some(&script_c08_spill(true, 120, 180, 10_000_000_000, 80_000_000_000, 120, 80_000_000_000)));
+        gen64(&mut rng, &mode, Some(&script_c08_spill(true, 120, 180, 10_000_000_000, 80_000_000_000, 10, 80_000_000_000)));
+        if mode == "c08" {
+            gen64(&mut rng, &mode, Some(&script_c08_spill(false, 120, 70, 10_000_000_000, 80_000_000_000, 150, 80_000_000_000)));
+            for _ in 0..6 {
+                let long_side = rng.chance(1, 2);
+                let p0 = rng.range(100, 150);
+                let p1 = if long_side { p0 * rng.range(125, 200) / 100 } else { p0 * rng.range(40, 80) / 100 };
+                let coll_usd = 1_000_000_000 * rng.range(2, 12);
+                let size = 10_000_000_000 * rng.range(5, 9);
+                let days = rng.range(40, 260);
+                let close = if rng.chance(1, 5) { size / 2 } else { size };
+                gen64(&mut rng, &mode, Some(&script_c08_spill(long_side, p0, p1, coll_usd, size, days, close)));
+            }
+        }
     }
     if mode == "c10" || mode == "mix" {
         gen64(&mut rng, &mode, Some(&script_c10()));
